@@ -1,0 +1,29 @@
+// Verification hooks (feature "verif" only). No effect on behaviour.
+use std::sync::atomic::{AtomicUsize, Ordering};
+
+#[derive(Clone, Copy, Debug, PartialEq, Eq, Hash)]
+pub enum Kind { Enter, Exit, MemoRead, MemoStore, LazyAccess, InitRun }
+
+#[derive(Clone, Copy, Debug, PartialEq, Eq, Hash)]
+pub struct Point { pub kind: Kind, pub object: usize, pub slot: usize }
+
+static CALLBACK: AtomicUsize = AtomicUsize::new(0);
+
+pub fn install(f: fn(Point)) { CALLBACK.store(f as usize, Ordering::SeqCst); }
+
+#[inline]
+pub fn point(kind: Kind, object: usize, slot: usize) {
+    let p = CALLBACK.load(Ordering::Relaxed);
+    if p != 0 {
+        let f: fn(Point) = unsafe { std::mem::transmute::<usize, fn(Point)>(p) };
+        f(Point { kind, object, slot });
+    }
+}
+
+pub struct Scope(pub usize);
+impl Scope { pub fn new(object: usize) -> Self { point(Kind::Enter, object, 0); Scope(object) } }
+impl Drop for Scope { fn drop(&mut self) { point(Kind::Exit, self.0, 0); } }
+
+thread_local! { static LOOKUP_BRANCH: std::cell::Cell<i32> = const { std::cell::Cell::new(-1) }; }
+pub fn set_lookup_branch(k: i32) { LOOKUP_BRANCH.with(|c| c.set(k)); }
+pub fn lookup_branch() -> i32 { LOOKUP_BRANCH.with(|c| c.get()) }
